@@ -65,6 +65,7 @@ const (
 	c12Reader            // ResolveReader over a paced reader: every Read is a scheduling point
 	c12ReaderFail        // ... that fails at byte 0, 1 or 2 (a request refused at its first bytes)
 	c12BrokenBOM         // ... whose text starts with a broken byte order mark
+	c12Bytes             // ResolveBytes
 )
 
 // resolveVia resolves a request through the delivery mode drawn for it. yield
@@ -72,6 +73,14 @@ const (
 func resolveVia(root *ggql.Root, req *workload.Request, mode, k int, vars map[string]interface{}, yield func()) (out string) {
 	if mode == c12String {
 		return resolveLite(root, req, vars)
+	}
+	if mode == c12Bytes {
+		defer func() {
+			if r := recover(); r != nil {
+				out = "PANIC: " + fmt.Sprint(r)
+			}
+		}()
+		return workload.CanonLite(root.ResolveBytes([]byte(req.Src), req.Op, vars))
 	}
 	defer func() {
 		if r := recover(); r != nil {
@@ -229,6 +238,8 @@ func (c C12) Run(t *tape.Tape, opt core.RunOpt) (res core.Result) {
 			modes[i], modeK[i] = c12ReaderFail, t.Draw(3)
 		case 3:
 			modes[i] = c12BrokenBOM
+		case 4, 5:
+			modes[i] = c12Bytes
 		}
 	}
 	base := make([]string, len(pool))
